@@ -339,8 +339,8 @@ func hasVarShift(n ast.Expr) bool {
 	return false
 }
 
-// untypedOverVarShift reports whether the expression applies unary minus or a binary operator other than a shift to
-// constant-valued operands of which one contains a shift by a variable count: Go gives the constant the type of the
+// untypedOverVarShift reports whether the expression applies unary minus, a binary operator other than a shift, or a left
+// shift by a constant count to constant-valued operands of which one contains a shift by a variable count: Go gives the constant the type of the
 // context (int32 here) before shifting, so the arithmetic that follows wraps; goatlang keeps computing in untyped
 // numbers until a typed operand arrives (known finding c05-untyped-arith-over-variable-shift).
 func untypedOverVarShift(n ast.Expr) bool {
@@ -354,6 +354,11 @@ func untypedOverVarShift(n ast.Expr) bool {
 		return untypedOverVarShift(x.X)
 	case *ast.BinaryExpr:
 		if x.Op != token.SHL && x.Op != token.SHR && constValued(x.X, false) && constValued(x.Y, false) && (hasVarShift(x.X) || hasVarShift(x.Y)) {
+			return true
+		}
+		// a further shift by a constant count is folded like any other untyped arithmetic (a shift by a variable is not:
+		// its result is reduced to 32 bits)
+		if x.Op == token.SHL && isConst(x.Y) && constValued(x.X, false) && hasVarShift(x.X) {
 			return true
 		}
 		return untypedOverVarShift(x.X) || untypedOverVarShift(x.Y)
@@ -1094,6 +1099,45 @@ func TestEnum12(t *testing.T) {
 	runEnum(t, 2, 1)
 }
 
+// TestLiteralChains enumerates short chains in which literals of full width sit next to each other and next to a
+// variable: a op c1 op c2, c1 op a op c2 and a op c1 op c2 op c3. Go evaluates them left to right in int32, wrapping
+// at every step; an implementation that combines neighbouring literals first (as untyped numbers) or regroups a chain
+// of one associative operator gives other values as soon as the literals' own combination leaves the int32 range.
+func TestLiteralChains(t *testing.T) {
+	r := ev.R()
+	r.Disjoint()
+	ops := []string{"+", "-", "*", "|", "^", "&"}
+	lits := []Atom{{Name: "3"}, {Name: "65536"}, {Name: "46341"}, {Name: "1500000000"}, {Name: "0x7fffffff"}, {Prefix: "-", Name: "1500000000"}, {Prefix: "-", Name: "0x7fffffff"}}
+	a := Atom{Name: "a"}
+	idx, fails := 0, 0
+	try := func(x *Expr) {
+		idx++
+		if fails >= 3 || !r.Mine(idx) {
+			return
+		}
+		if f, _ := one(x, false); f != nil {
+			r.Fail(t, f)
+			fails++
+		}
+	}
+	for _, o1 := range ops {
+		for _, o2 := range ops {
+			for _, c1 := range lits {
+				for _, c2 := range lits {
+					try(&Expr{Atoms: []Atom{a, c1, c2}, Ops: []string{o1, o2}})
+					try(&Expr{Atoms: []Atom{c1, a, c2}, Ops: []string{o1, o2}})
+					if o1 == o2 {
+						for _, c3 := range lits {
+							try(&Expr{Atoms: []Atom{a, c1, c2, c3}, Ops: []string{o1, o1, o1}})
+						}
+					}
+				}
+			}
+		}
+	}
+	r.Exhaustive("a op c1 op c2, c1 op a op c2 (all pairs of + - * | ^ &) and a op c1 op c2 op c3 (one operator) over seven full-width literals", fails == 0)
+}
+
 // TestEnum3 enumerates every 3-operator expression (thorough tier, sharded).
 func TestEnum3(t *testing.T) { runEnum(t, 3, 1) }
 
@@ -1118,7 +1162,7 @@ func genExpr(rt *rapid.T, nOps int, depth int, ni, nb *int) *Expr {
 			*nb++
 		case kind == 3:
 			// literals in every spelling, bare, with a prefix operator, and doubly negated
-			lit := rapid.SampledFrom([]string{"0", "1", "2", "3", "5", "8", "31", "010", "017", "0x10", "0x1f", "0x7f", "'a'", "'0'", "'\\n'"}).Draw(rt, "lit")
+			lit := rapid.SampledFrom([]string{"0", "1", "2", "3", "5", "8", "31", "010", "017", "0x10", "0x1f", "0x7f", "'a'", "'0'", "'\\n'", "65536", "46341", "1500000000", "0x7fffffff", "65536", "1500000000"}).Draw(rt, "lit")
 			switch rapid.IntRange(0, 5).Draw(rt, "litform") {
 			case 0:
 				x.Atoms = append(x.Atoms, Atom{Prefix: "-", Name: lit})
